@@ -457,7 +457,14 @@ func (g *bundleGen) cmd(s *gScope, depth int) string {
 				args += ", " + strconv.Itoa(1+r.Intn(2))
 			}
 		}
-		return "{for $" + name + " in range(" + args + ")}" + g.block(inner, depth-1) + "{/for}"
+		kw := []string{"for", "for", "foreach"}[r.Intn(3)]
+		out := "{" + kw + " $" + name + " in range(" + args + ")}" + g.block(inner, depth-1)
+		if r.Intn(3) == 0 {
+			// the {ifempty} of a loop over range(…) (soyjs 2e1528d)
+			g.stat("range-ifempty")
+			out += "{ifempty}" + g.block(s, depth-1)
+		}
+		return out + "{/" + kw + "}"
 	case choice == 14 || choice == 15:
 		// let: value or content.  The variable is visible for the rest of the enclosing block.
 		t := scalarTypes[r.Intn(len(scalarTypes))]
@@ -702,6 +709,7 @@ func (t *gTemplate) source() string {
 	}
 	b.WriteString("}\n")
 	if t.header {
+		// header params usually stand on lines of their own; now and then two share a line
 		for pi, p := range t.params {
 			if p.optional {
 				b.WriteString("{@param? " + p.name + ": ?}\n")
@@ -711,6 +719,16 @@ func (t *gTemplate) source() string {
 			} else {
 				b.WriteString("{@param " + p.name + ": ?}\n")
 			}
+		}
+	}
+	if t.header && len(t.body)%5 == 2 && len(t.params) > 1 {
+		// join the first two header params on one line: "{@param a: ?} {@param b: ?}"
+		s := b.String()
+		i := strings.Index(s, "}\n{@param")
+		if i >= 0 {
+			s = s[:i] + "} " + s[i+2:]
+			b.Reset()
+			b.WriteString(s)
 		}
 	}
 	b.WriteString(t.body)
